@@ -66,6 +66,7 @@ type fielder struct {
 // FieldsFor returns the fields of the given struct type.
 // https://github.com/amzn/ion-go/issues/117
 func fieldsFor(t reflect.Type) []field {
+	verifYield("fieldsFor", t)
 	fldr := fielder{index: map[string]bool{}}
 	fldr.inspect(t, nil)
 	return fldr.fields
